@@ -7,7 +7,9 @@ pub mod c02;
 pub mod c03;
 pub mod c04;
 pub mod c05;
+pub mod c06;
 pub mod c07;
+pub mod c08;
 pub mod c09;
 pub mod c10;
 pub mod c11;
@@ -49,7 +51,9 @@ registry! {
     "C03" => c03::C03,
     "C04" => c04::C04,
     "C05" => c05::C05,
+    "C06" => c06::C06,
     "C07" => c07::C07,
+    "C08" => c08::C08,
     "C09" => c09::C09,
     "C10" => c10::C10,
     "C11" => c11::C11,
